@@ -57,6 +57,15 @@ pub open spec fn data_value<'a, T: Queryable>(d: Data<'a, T>) -> Option<T> {
         Data::Nothing => None,
     }
 }
+// the values a state hands over to an extension function: its value, or the values of its nodes in order
+pub open spec fn data_vals<'a, T: Queryable>(d: Data<'a, T>) -> Seq<T> {
+    match d {
+        Data::Value(v) => seq![v],
+        Data::Ref(p) => seq![*p.inner],
+        Data::Refs(v) => v@.map_values(|p: Pointer<'a, T>| *p.inner),
+        Data::Nothing => Seq::<T>::empty(),
+    }
+}
 pub open spec fn data_count<'a, T: Queryable>(d: Data<'a, T>) -> int {
     match d { Data::Value(v) => 1, Data::Ref(p) => 1, Data::Refs(v) => v@.len() as int, Data::Nothing => 0 }
 }
